@@ -293,14 +293,32 @@ def analyse(repo, package='pyx12', exclude=('test', 'scripts', 'examples')):
                         n.func.attr in ('close_isa_loop', 'close_gs_loop', 'close_st_loop'):
                     stmt = pm_stmt(pm, n)
                     par = pm.get(stmt)
-                    before = []
-                    for fld in ('body', 'orelse', 'finalbody'):
-                        blk = getattr(par, fld, None)
-                        if isinstance(blk, list) and stmt in blk:
-                            before = blk[:blk.index(stmt)]
+                    def _earlier(st_):
+                        par_ = pm.get(st_)
+                        for fld in ('body', 'orelse', 'finalbody'):
+                            blk = getattr(par_, fld, None)
+                            if isinstance(blk, list) and st_ in blk:
+                                return blk[:blk.index(st_)]
+                        return []
+
+                    def _direct(call):
+                        w = '%s.handle_errors(src.pop_errors())' % text(call.func.value)
+                        return any(text(p).replace(' ', '') == w.replace(' ', '') for p in _earlier(pm_stmt(pm, call)))
+                    ok = _direct(n)
+                    if not ok:
+                        # a repeated close (after the trailer itself has been validated) is covered by the first one: an earlier statement
+                        # of an enclosing block within the same loop body holds a close of the same loop that is itself preceded properly
+                        up = stmt
+                        while not ok and up in pm and not isinstance(pm[up], (ast.For, ast.While, ast.FunctionDef)):
+                            up = pm[up]
+                            if isinstance(up, ast.stmt):
+                                for p in _earlier(up):
+                                    for c in ast.walk(p):
+                                        if isinstance(c, ast.Call) and isinstance(c.func, ast.Attribute) and c.func.attr == n.func.attr and _direct(c):
+                                            ok = True
                     recv = text(n.func.value)
                     want = '%s.handle_errors(src.pop_errors())' % recv
-                    if not any(text(p).replace(' ', '') == want.replace(' ', '') for p in before):
+                    if not ok:
                         findings.append(Finding('errors-before-close', m.name, qual, stmt,
                                                 '%s is not preceded in its block by %s' % (n.func.attr, want)))
                 # ---- delimiter reads (C12)
